@@ -17,7 +17,8 @@ RULE = ("Exhaustive: every mask over 2-4 features with entries from {-1, 0, 0.3,
         "unconditional transform); moving one transformed input leaves every other output bit-identical and moves its own "
         "output monotonically; Jacobian rows of identity outputs are unit vectors and the transformed block is diagonal with "
         "positive diagonal (exact zeros elsewhere, across channels and pixels); identity_features/transform_features partition "
-        "the features consistently with mask > 0. Non-trivial: mask is not the mid-split, or inverse, or 4-D, or context.")
+        "the features consistently with mask > 0. Identity features of box-restricted couplings are also drawn outside [0,1] (only transformed "
+        "features are restricted); the UMNN inverse also sees one far-out value (5000). Non-trivial: mask is not the mid-split, or inverse, or 4-D, or context.")
 ASSUMPTIONS = ["bitwise comparison via torch.equal on the same dtype", "masks with an empty side are not generated "
                "(the conditioner would have zero inputs or outputs)"]
 EXHAUSTIVE = {"quick": True, "thorough": True}
